@@ -32,15 +32,18 @@ MAX_ENUM = 120000
 
 def gen_case(rng, tier):
     cfg = TIERS[tier]
+    mode = rng.choice(["planted", "planted", "noisy", "noisy", "wild", "edited", "edited", "homozygous",
+                       "mismatch", "mismatch", "crowded", "crowded"])
     r = rng.random()
+    if mode == "crowded":
+        r = max(r, 0.36)  # needs a catalogue with multi-allelic sites
     if r < 0.35:
         gene = {"kind": "toy", "genome": rng.choice(["hg19", "hg38"])}
     elif r < 0.92 or not cfg["shipped"]:
-        gene = {"kind": "world", "world": SL.gen_stage_world(rng, n_variants=rng.choice([4, 5, 6]))}
+        gene = {"kind": "world", "world": SL.gen_stage_world(rng, n_variants=rng.choice([4, 5, 6]), sibling_alts=(mode == "crowded" or rng.random() < 0.3))}
     else:
         gene = {"kind": "shipped", "name": rng.choice(cfg["shipped"]), "genome": "hg19"}
-    return {"gene": gene, "seed": rng.randint(0, 10**9), "mode": rng.choice(["planted", "planted", "noisy", "noisy", "wild", "edited", "edited", "homozygous",
-                                "mismatch", "mismatch", "crowded"]),
+    return {"gene": gene, "seed": rng.randint(0, 10**9), "mode": mode,
             "depth": rng.choice([10, 20]), "max_copies": rng.choice([1, 2, 2, 3]), "phase": rng.random() < 0.3}
 
 
@@ -386,16 +389,48 @@ def run_case(case, seg, viol, stats, sample):
         table = SL.planted_table(gene, planted, case["depth"], rng, noise=rng.choice([0.1, 0.25, 0.4]),
                                  extra_noise=rng.choice([0, 1, 2]))
     elif mode == "crowded":
-        # a second alternative allele is observed at a site where a called allele already carries one
-        table = SL.planted_table(gene, planted, case["depth"])
-        have = {}
-        for ma, mi in planted:
-            for m in SL.allele_muts(gene, ma, mi):
-                have[m.pos] = m.op
-        for (pos, op) in sorted(gene.mutations):
-            if pos in have and have[pos] != op and ">" in op and ">" in have[pos]:
-                table.setdefault(pos, {})[op] = rng.randint(3, case["depth"])
+        # a single called copy already carries one alternative allele of a multi-allelic site and reads show
+        # a second catalogued alternative there: no other allele can take it
+        by_pos = {}
+        for (pos, op) in gene.mutations:
+            if ">" in op:
+                by_pos.setdefault(pos, []).append(op)
+        pick = None
+        for a_ in gene.alleles.values():
+            if a_.cn_config != "1":
+                continue
+            # the second alternative must be a *considered* variant: it belongs to a sibling sub-allele
+            pool = {}
+            for mi_ in sorted(a_.minors):
+                for m in sorted(SL.allele_muts(gene, a_.name, mi_)):
+                    if ">" in m.op:
+                        pool.setdefault(m.pos, {}).setdefault(m.op, mi_)
+            for pos_, ops_ in sorted(pool.items()):
+                if len(ops_) >= 2:
+                    (op1, mi1), (op2, _) = sorted(ops_.items())[:2]
+                    pick = (a_.name, mi1, gene_ref.mutations and __import__("aldy.gene", fromlist=["Mutation"]).Mutation(pos_, op1))
+                    by_pos[pos_] = [op1, op2]
+                    break
+            if pick:
                 break
+        if pick and rng.random() < 0.8:
+            del cn[:]
+            cn.append("1")
+            del planted[:]
+            planted.append((pick[0], pick[1]))
+            table = SL.planted_table(gene, planted, case["depth"])
+            other = next(op for op in by_pos[pick[2].pos] if op != pick[2].op)
+            table.setdefault(pick[2].pos, {})[other] = rng.randint(3, case["depth"])
+        else:
+            table = SL.planted_table(gene, planted, case["depth"])
+            have = {}
+            for ma, mi in planted:
+                for m in SL.allele_muts(gene, ma, mi):
+                    have[m.pos] = m.op
+            for (pos, op) in sorted(gene.mutations):
+                if pos in have and have[pos] != op and ">" in op and ">" in have[pos]:
+                    table.setdefault(pos, {})[op] = rng.randint(3, case["depth"])
+                    break
     elif mode == "mismatch":
         # the evidence comes from other haplotypes than the major solution claims ("for any evidence and
         # any major solution"): core variants of a called allele may have little or no support
